@@ -1265,6 +1265,16 @@ func c07CloseAfterExit(c *Ctx) {
 								}
 							}
 						}
+						// ... or the verdict of a helper that waits in such a select (p.exitedWithin(d))
+						if hc, ok := cond.(*ssa.Call); ok {
+							if sc := ir.StaticCallee(hc); sc != nil && c.P.IsLib(sc) {
+								ir.EachInstr(sc, func(_ *ssa.BasicBlock, _ int, hin ssa.Instruction) {
+									if sel, ok := hin.(*ssa.Select); ok && sel.Blocking {
+										filtered = true
+									}
+								})
+							}
+						}
 						// an arm of a select: index test of the select's result
 						if bin, ok := cond.(*ssa.BinOp); ok {
 							for _, side := range []ssa.Value{bin.X, bin.Y} {
